@@ -96,12 +96,12 @@ type docCase struct {
 	prop string
 }
 
-var docStrings = []string{"abc", "", "with \"quote\" and \\ and \n", "é☃\U0001F600", "</x>&"}
-var docTimes = []string{"2024-01-02T03:04:05Z", "2024-02-29T23:59:59.123456789+02:00", "1969-12-31T23:59:59.999-05:30"}
-var docInt64 = []any{json.Number("0"), json.Number("42"), json.Number("-9223372036854775808"), json.Number("9223372036854775807")}
+var docStrings = []string{"abc", "", "with \"quote\" and \\ and \n", "é☃\U0001F600", "</x>&", " ", "\t tab and \u0000 nul \u001f us \u007f del", "\u2028line\u2029sep", "null", "true", "17", "{\"a\":1}", strings.Repeat("long-é-", 700)}
+var docTimes = []string{"2024-01-02T03:04:05Z", "2024-02-29T23:59:59.123456789+02:00", "1969-12-31T23:59:59.999-05:30", "0001-01-01T00:00:00Z", "9999-12-31T23:59:59.999999999Z", "2024-01-02T03:04:05+14:00", "2024-01-02T03:04:05.5Z", "2024-12-31T23:59:59-00:00"}
+var docInt64 = []any{json.Number("0"), json.Number("42"), json.Number("-9223372036854775808"), json.Number("9223372036854775807"), json.Number("-0"), json.Number("-1"), json.Number("9007199254740993")}
 var docInt32 = []any{json.Number("0"), json.Number("-7"), json.Number("2147483647"), json.Number("-2147483648")}
-var docF64 = []any{json.Number("1.5"), json.Number("-2"), json.Number("1e21"), json.Number("1.7976931348623157e308"), json.Number("5e-324"), json.Number("0.1")}
-var docF32 = []any{json.Number("1.5"), json.Number("-2"), json.Number("3.4028235e38"), json.Number("16777216")}
+var docF64 = []any{json.Number("1.5"), json.Number("-2"), json.Number("1e21"), json.Number("1.7976931348623157e308"), json.Number("5e-324"), json.Number("0.1"), json.Number("-0"), json.Number("1E5"), json.Number("1e-7"), json.Number("0.000001"), json.Number("123456789012345680000"), json.Number("2.5e+3"), json.Number("9007199254740993")}
+var docF32 = []any{json.Number("1.5"), json.Number("-2"), json.Number("3.4028235e38"), json.Number("16777216"), json.Number("1e-45"), json.Number("0.1"), json.Number("16777217"), json.Number("-0")}
 var docAny = []any{json.Number("1"), "s", true, nil, map[string]any{"a": json.Number("1"), "b": []any{nil, "x"}}, []any{}, map[string]any{}}
 
 // sampleValue returns one valid JSON value for the resolved schema (TLA record form as produced by tlaSchema).
